@@ -211,6 +211,19 @@ func (w *World) Reconnect(old *Peer, ents []EntSpec) *Peer {
 	return p
 }
 
+// ReconnectOnly sets the same device (same SKI and address) up again on a new connection, without
+// announcing anything. The returned Peer replaces the old one in w.Peers.
+func (w *World) ReconnectOnly(old *Peer) *Peer {
+	p := &Peer{W: w, Idx: old.Idx, Ski: old.Ski, Addr: old.Addr, Cap: &Capture{}, ctr: old.ctr + 500}
+	p.Reader = w.Local.SetupRemoteDevice(p.Ski, p.Cap)
+	p.Dev = w.Local.RemoteDeviceForSki(p.Ski)
+	if msgs := p.Cap.All(); len(msgs) > 0 {
+		p.DiscoveryRef = msgs[0].D.Header.MsgCounter
+	}
+	w.Peers[old.Idx] = p
+	return p
+}
+
 // AddPeer connects a peer and announces its tree with a detailed-discovery reply.
 // Entity [0] with NodeManagement feature 0 is added automatically if absent.
 func (w *World) AddPeer(ski, addr string, ents []EntSpec) *Peer {
